@@ -72,6 +72,8 @@ type world struct {
 	depth     int
 
 	svcs      map[int64]*service
+	probes    map[int64]*probe
+	preg      map[[2]int64]bool // (probe, name) registered at the global centre by this case
 	driverGid string
 	starting  *service // the service whose loop goroutine id is not known yet
 	closing   bool     // the case is over: nothing is logged or interpreted any more
@@ -91,6 +93,8 @@ func newWorld(caseNo int) *world {
 		chanMode:  map[int64]bool{0: false, 1: true, 2: true, 3: true, 4: true, 5: true},
 		svcs:      map[int64]*service{4: {c: 4}, 5: {c: 5}},
 		tags:      map[string]bool{},
+		probes:    map[int64]*probe{},
+		preg:      map[[2]int64]bool{},
 		progs:     map[int64][]hx.T{},
 		listeners: map[int64]*lst{},
 		recvs:     map[int64]*recvObj{},
@@ -456,6 +460,9 @@ func (w *world) act(self *lst, a hx.T) {
 			w.tag("publish-after-stop")
 		}
 		w.emit(hx.C("VGPub", n, args, k, qlens))
+		if w.probing() {
+			w.emit(hx.C("VProbe", n, args, k, w.plens()))
+		}
 	case "AStop":
 		w.stop(a.Int(0))
 	default:
@@ -529,6 +536,8 @@ func (w *world) op(o hx.T) {
 		}
 		w.locals[c].SetLocalUseChan(b)
 		w.chanMode[c] = b
+	case "OReg", "OPark", "ORelease":
+		w.probeOp(o)
 	case "OStart":
 		w.start(o.Int(0))
 	case "ORun":
